@@ -86,7 +86,7 @@ EditLast(d, t, op, v, create) ==
 (* is set - doc/ref/jsonpointer: create_if_missing), then edit.             *)
 RECURSIVE Edit(_, _, _, _, _)
 Edit(d, toks, op, v, create) ==
-  IF toks = <<>> THEN (IF op = "remove" THEN Err ELSE Ok(v))        \* whole-document location
+  IF toks = <<>> THEN (IF op \in {"remove", "add_if_absent"} THEN Err ELSE Ok(v))   \* whole-document location: always exists, cannot be removed
   ELSE IF Len(toks) = 1 THEN EditLast(d, toks[1], op, v, create)
   ELSE LET t == Head(toks) IN
     IF IsObj(d) THEN
